@@ -51,6 +51,10 @@ func GenLooseReg(t *rapid.T, id int, hostile bool) Reg {
 				o.Key = rapid.SampledFrom(keys).Draw(t, "fkey")
 			case 1:
 				o.Group = rapid.SampledFrom(groups).Draw(t, "fgroup")
+			case 2:
+				if hostile && rapid.IntRange(0, 3).Draw(t, "bothtags") == 0 {
+					o.Key, o.Group = "a", "g" // a field carrying both a name and a group tag
+				}
 			}
 			r.Outs = append(r.Outs, o)
 		}
